@@ -1,6 +1,7 @@
 package eng
 
 import (
+	"sync/atomic"
 	"context"
 	"errors"
 	"fmt"
@@ -200,8 +201,16 @@ func NewExec(maxHeight int, opts ...incr.GraphOption) *Exec {
 	return newExec(maxHeight, incr.New(all...))
 }
 
+// Current is the executor of the history being run (for the watchdog of cmd/incrtrace); Pending
+// is the operation it is in the middle of.
+var (
+	Current *Exec
+	Pending atomic.Pointer[Op]
+)
+
 func newExec(maxHeight int, g *incr.Graph) *Exec {
 	e := &Exec{G: g, MaxHeight: maxHeight, Obs: map[int]*ORef{}, byIdent: map[incr.Identifier]int{}, byPtr: map[*incr.Node]int{}}
+	Current = e
 	e.G.OnStabilizationStart(func(context.Context) { e.emit(Event{K: "EvPassStart"}) })
 	e.G.OnStabilizationEnd(func(_ context.Context, _ time.Time, err error) {
 		class, _, _ := Classify(err)
@@ -482,6 +491,8 @@ func (e *Exec) inst(scope incr.Scope, b, gen, x int, t *Texp) *NRef {
 
 // Do applies one operation and records the sample.
 func (e *Exec) Do(op Op) (out Sample) {
+	Pending.Store(&op)
+	defer Pending.Store(nil)
 	e.events = nil
 	e.plan = nil
 	var err error
@@ -539,13 +550,18 @@ func (e *Exec) Do(op Op) (out Sample) {
 			e.newBind2(e.G, -1, 0, op.Cases, op.A, op.B)
 		case "NewSentinel":
 			var ref *NRef
-			sn := incr.Sentinel(e.G, func() bool {
+			sid := e.Next
+			sn := incr.SentinelContext(e.G, func(context.Context) (bool, error) {
+				// the sentinel's own function may fail like any node function (an always node that errors)
+				if err := e.invoke(sid, "WFn"); err != nil {
+					return false, err
+				}
 				if ref != nil && ref.Fire {
 					ref.Fire = false
 					ref.Fired = true
-					return true
+					return true, nil
 				}
-				return false
+				return false, nil
 			}, e.Nodes[op.A].INode)
 			ref = e.register("Sentinel", nil, sn, -1, 0, nil)
 			ref.Sent, ref.Watched = sn, op.A
